@@ -25,7 +25,7 @@ Requirements for the change:
 How to work:
 1. Create your own scratch git worktree (never edit /repo itself):  git -C /repo worktree add --detach {wt} HEAD
    To avoid a cold build, seed the build cache first:  cp -a /repo/target {wt}/target   (about 11 GB, registry dependencies are then reused; workspace crates rebuild).
-   Work only inside {wt}. Build/test with e.g.  cd {wt} && cargo test --offline -p <crate> [test filter]   (crates: astria-sequencer, astria-core, astria-merkle, astria-conductor, astria-sequencer-relayer, astria-composer). Use at most 6 parallel jobs (-j 6) - the machine is shared.
+   Work only inside {wt}. Build/test with e.g.  cd {wt} && cargo test --offline -p <crate> [test filter]   (crates: astria-sequencer, astria-core, astria-merkle, astria-conductor, astria-sequencer-relayer, astria-composer). Use at most 5 parallel jobs (-j 5) - the machine is shared. `cargo nextest run --offline -p <crate>` is available and is what the project's baseline uses; note that under plain `cargo test` three astria-sequencer tests (app::tests_app::app_*_failed_ibc_relay_included_in_block) fail on the UNCHANGED code when the whole lib suite runs in one process - ignore those or use nextest.
 2. Read the anchored code, choose the change, make it.
 3. Write the demonstration as a NEW test (a #[test]/#[tokio::test] function added to an existing test module or a new tests file, or a small example program) that exercises the real code: it must FAIL (assert/panic) with your change applied and PASS on the unchanged code. Put the demonstration in its own patch, separate from the breaking change.
 4. Verify all three facts yourself and record the exact commands: (a) with the change, the touched crates' existing tests pass; (b) with change + demo, the demo fails; (c) with only the demo (change reverted), the demo passes.
